@@ -150,6 +150,10 @@ class _PackedBoolArray:
         if (newsize + self._start_index) % 8 != 0:
             newsize_data += 1
 
+        if not self._data.flags.owndata:
+            # As for numpy arrays, a view of another buffer cannot be resized.
+            raise ValueError("Cannot resize a _PackedBoolArray that does not own its data.")
+
         if self._stop_index % 8 != 0:
             # The new elements must be False whatever the padding bits hold.
             self._data[-1] &= np.uint8((1 << (self._stop_index % 8)) - 1)
